@@ -531,10 +531,14 @@ func runCollisionProbes(res *childResult, seed int64, nc *nctx.NetCtx) {
 			t0 := time.Now()
 			err, pn := safeDispatch(e.d, second.msg, e.stream)
 			n := map[int]int{}
+			reached := map[int]int{}
 			for i, s := range e.subs {
 				n[i] = len(s.take())
+				if n[i] > 0 {
+					reached[i] = n[i]
+				}
 			}
-			e.oplog = append(e.oplog, fmt.Sprintf("Dispatch(%s) [distinct message, same field concatenation] -> %s, delivered to %v", second, errStr(err), sortedKeys(n)))
+			e.oplog = append(e.oplog, fmt.Sprintf("Dispatch(%s) [distinct message, same field concatenation] -> %s, delivered to %v", second, errStr(err), sortedKeys(reached)))
 			res.count("seq.collision_probe.checked", 1)
 			res.Cases = append(res.Cases, caseRec{fmt.Sprintf("collision|%s|%s", what, order), true})
 			_ = t0
